@@ -102,10 +102,7 @@ def run_one(ctx, c, lib, n, doctor=None):
     d.mkdir(parents=True, exist_ok=True)
     txt = ptest_text(c, lib, n)
     (d / "a.ptest").write_text(txt)
-    extra = {}
-    if os.environ.get("VF_C53_LIBPATH"):     # validation of the monitor against a privately patched libTFELMTest (never set by ./vf)
-        extra["LD_LIBRARY_PATH"] = os.environ["VF_C53_LIBPATH"] + ":" + vfcore.ld_path("plain")
-    r = vfcore.run([vfcore.tool("plain", "mtest"), "--scheme=ptest", "--verbose=level1", "a.ptest"], timeout=180, cwd=d, env=M.env(extra), merge=True)
+    r = vfcore.run([vfcore.tool("plain", "mtest"), "--scheme=ptest", "--verbose=level1", "a.ptest"], timeout=180, cwd=d, env=M.env(), merge=True)
     o = {"n": n, "status": None, "text": txt}
     crash = ctx.classify_crash(r, recognised_terminate=True)
     if crash == "hang":
